@@ -97,6 +97,8 @@ pub struct Hist {
     pub peers: Vec<PeerState>,
     pub inconclusive: bool,
     pub quiescent: bool,
+    /// particles addressed to a peer id that is not a peer of the simulation (dropped)
+    pub dropped: usize,
 }
 
 /// attach the frozen (generator-independent) form of a case
@@ -123,7 +125,7 @@ pub fn simulate(case: &HistCase) -> Result<Hist, String> {
         if air_parser::parse(&script.text).is_err() {
             return Err("frozen script is rejected by the parser".into());
         }
-        let (particle, log, peers, inconclusive, quiescent) = {
+        let (particle, log, peers, inconclusive, quiescent, dropped) = {
             let mut sim = Sim::new(&script);
             for a in &e.actions {
                 // an action that is not enabled any more (changed behaviour) ends the replay
@@ -140,24 +142,24 @@ pub fn simulate(case: &HistCase) -> Result<Hist, String> {
             }
             sim.drain();
             let q = sim.quiescent();
-            (sim.particle.clone(), std::mem::take(&mut sim.log), std::mem::take(&mut sim.peers), sim.inconclusive, q)
+            (sim.particle.clone(), std::mem::take(&mut sim.log), std::mem::take(&mut sim.peers), sim.inconclusive, q, sim.dropped_msgs)
         };
-        return Ok(Hist { script, particle, log, peers, inconclusive, quiescent });
+        return Ok(Hist { script, particle, log, peers, inconclusive, quiescent, dropped });
     }
     let script = elaborate(&case.sk, &case.cfg());
     if air_parser::parse(&script.text).is_err() {
         return Err("generator produced a script the parser rejects".into());
     }
-    let (particle, log, peers, inconclusive, quiescent) = {
+    let (particle, log, peers, inconclusive, quiescent, dropped) = {
         let mut sim = Sim::new(&script);
         if script.feat.unbounded_rec > 0 {
             sim.max_steps = 40;
         }
         sim.run_schedule(&case.sched);
         let q = sim.quiescent();
-        (sim.particle.clone(), std::mem::take(&mut sim.log), std::mem::take(&mut sim.peers), sim.inconclusive, q)
+        (sim.particle.clone(), std::mem::take(&mut sim.log), std::mem::take(&mut sim.peers), sim.inconclusive, q, sim.dropped_msgs)
     };
-    Ok(Hist { script, particle, log, peers, inconclusive, quiescent })
+    Ok(Hist { script, particle, log, peers, inconclusive, quiescent, dropped })
 }
 
 pub fn sample_of(h: &Hist) -> Value {
